@@ -1,6 +1,8 @@
 """C19: rtllib Matrix operations vs (a) the Coq model Lib/Matrix.v (tie) and (b) plain nested-list
 integer arithmetic reduced mod 2^bits of the result (search)."""
 import itertools
+import multiprocessing
+import threading
 
 import pyrtl
 from pyrtl.rtllib import matrix as M
@@ -246,14 +248,15 @@ def declared_bits(case):
     """documented width rule of + * @ (None for other ops) and the max_bits it is capped by"""
     op, ops = case['op'], case['ops']
     mb = ops[0][3]
+    eb = [capb(o[2], o[3]) for o in ops]     # element width of each operand as constructed
     if op in ('add', 'iadd'):
-        return max(ops[0][2], ops[1][2]) + 1, mb
+        return max(eb[0], eb[1]) + 1, mb
     if op in ('mul', 'imul', 'multiply'):
-        return ops[0][2] + ops[1][2], mb
+        return eb[0] + eb[1], mb
     if op == 'scal':
-        return ops[0][2] + case['args']['ws'], mb
+        return eb[0] + case['args']['ws'], mb
     if op in ('matmul', 'imatmul'):
-        return ops[0][1] * ops[1][0] * (ops[0][2] + ops[1][2]), mb
+        return ops[0][1] * ops[1][0] * (eb[0] + eb[1]), mb
     return None, mb
 
 
@@ -709,7 +712,11 @@ def build_design(batch):
     return infos
 
 
-def run_batch(ctx, batch, vec_lists):
+def run_batch_job(job):
+    return run_batch(job[0], job[1])
+
+
+def run_batch(batch, vec_lists):
     infos = build_design(batch)
     block = pyrtl.working_block()
     nsteps = max(len(v) for v in vec_lists)
@@ -754,16 +761,20 @@ def run(ctx):
         v, exh = value_vectors(ctx, case, idx, tier)
         case['exhaustive'] = exh
         vecs.append(v)
-    # ---- Coq model, one expression per case
+    # ---- Coq model, one expression per case (evaluated in a thread while the designs are simulated)
     exprs = []
     for case, v in zip(cases, vecs):
         exprs.append('map (fun v : list Z => %s) [%s]' % (coq_expr(case), '; '.join(zl(list(t)) for t in v)))
-    try:
-        model = ctx.coq_eval(exprs, IMPORTS, tag='c19', shard=(40 if tier == 'quick' else 80), jobs=14)
-    except Exception as e:
-        model = None
-        ctx.model_mismatch('Lib/Matrix.v could not be evaluated: %s' % str(e)[-800:], {})
-    # ---- implementation, batched designs
+    box = {}
+
+    def eval_model():
+        try:
+            box['model'] = ctx.coq_eval(exprs, IMPORTS, tag='c19', shard=(60 if tier == 'quick' else 120), jobs=6)
+        except Exception as e:
+            box['error'] = str(e)[-800:]
+    th = threading.Thread(target=eval_model)
+    th.start()
+    # ---- implementation, batched designs, simulated in worker processes
     order = sorted(range(len(cases)), key=lambda i: (len(vecs[i]), cost(cases[i])))
     results = {}
     group = []
@@ -777,11 +788,17 @@ def run(ctx):
         budget += cost(cases[i])
     if group:
         groups.append(group)
-    for grp in groups:
-        infos, outs = run_batch(ctx, [cases[i] for i in grp], [vecs[i] for i in grp])
+    jobs = [([cases[i] for i in grp], [vecs[i] for i in grp]) for grp in groups]
+    with multiprocessing.get_context('fork').Pool(8) as pool:
+        done = pool.map(run_batch_job, jobs, chunksize=1)
+    for grp, (infos, outs) in zip(groups, done):
         for i, info, o in zip(grp, infos, outs):
             results[i] = (info, o)
     pyrtl.reset_working_block()
+    th.join()
+    model = box.get('model')
+    if model is None:
+        ctx.model_mismatch('Lib/Matrix.v could not be evaluated: %s' % box.get('error'), {})
     # ---- compare
     for idx, case in enumerate(cases):
         info, outs = results[idx]
@@ -831,9 +848,11 @@ def judge(ctx, idx, case, vecs, info, outs, model):
 
         def violation(what, **extra):
             sig = sig_known or ('op:%s' % op)
-            if sig in reported:
+            seen = ctx.__dict__.setdefault('_c19_reported', {})
+            if sig in reported or seen.get(sig, 0) >= 3:
                 return
             reported.add(sig)
+            seen[sig] = seen.get(sig, 0) + 1
             ctx.spec_violation(sig, 'Matrix %s: %s' % (op, what), dict(rep, **extra))
 
         # --- implementation vs specification (search)
